@@ -460,4 +460,36 @@ PROPS = {
             "the closure sets are translator hints; the kernel checks closedness and root membership",
         ],
     },
+    "C07": {
+        "modules": [T + "C07"],
+        "theorems": [(T + "C07.generate_any_cfg_eq_spec", T + "C07"),
+                     (T + "C07.generate_cfg_irrelevant", T + "C07"),
+                     (T + "C07.aggregation_dispatch_any", T + "C07"),
+                     (T + "C07.distance_dispatch_any", T + "C07"),
+                     (T + "C07.compare_cfg_irrelevant", T + "C07"),
+                     (T + "C07.parse_cfg_irrelevant", T + "C07"),
+                     (T + "C07.format_cfg_irrelevant", T + "C07"),
+                     (T + "C07.pearson_double", T + "C07"),
+                     (T + "C01.tables", T + "C01"), (T + "C02.tables", T + "C02"), (T + "C04.tables", T + "C04")],
+        "modules_extra": [T + "C01", T + "C02", T + "C04"],
+        "bv_decide_theorems": {'TlshVerif.Theorems.C07.generate_any_cfg_eq_spec', 'TlshVerif.Theorems.C07.compare_cfg_irrelevant', 'TlshVerif.Theorems.C07.aggregation_dispatch_any', 'TlshVerif.Theorems.C07.generate_cfg_irrelevant', 'TlshVerif.Theorems.C07.distance_dispatch_any'},
+        "extract_keys": ["kernel", "SUBST_TABLE", "HEX_", "dist_"],
+        "spec_is_property": True,
+        "cross_config_streams": ['gen', 'cmp', 'fmt', 'store', 'frombin', 'len', 'state-none'],
+        "streams": {
+            "quick": [('default', 'gen', 250), ('default', 'cmp', 400), ('default', 'fmt', 60), ('default', 'store', 1), ('default', 'frombin', 100), ('default', 'len', 300), ('default', 'tables', 300), ('default', 'agg', 200), ('default', 'body', 200), ('default', 'parse', 400), ('naive', 'gen', 250), ('naive', 'cmp', 400), ('naive', 'fmt', 60), ('naive', 'store', 1), ('naive', 'frombin', 100), ('naive', 'len', 300), ('naive', 'tables', 300), ('naive', 'agg', 200), ('naive', 'body', 200), ('optdef', 'gen', 250), ('optdef', 'cmp', 400), ('optdef', 'fmt', 60), ('optdef', 'store', 1), ('optdef', 'frombin', 100), ('optdef', 'len', 300), ('optdef', 'tables', 300), ('optdef', 'agg', 200), ('optdef', 'body', 200), ('optdef', 'parse', 400), ('embedded', 'gen', 250), ('embedded', 'cmp', 400), ('embedded', 'fmt', 60), ('embedded', 'store', 1), ('embedded', 'frombin', 100), ('embedded', 'len', 300), ('embedded', 'tables', 300), ('embedded', 'agg', 200), ('embedded', 'body', 200), ('embedded', 'parse', 400), ('quarter', 'gen', 250), ('quarter', 'cmp', 400), ('quarter', 'fmt', 60), ('quarter', 'store', 1), ('quarter', 'frombin', 100), ('quarter', 'len', 300), ('quarter', 'tables', 300), ('quarter', 'agg', 200), ('quarter', 'body', 200), ('quarter', 'parse', 400), ('mintab', 'gen', 250), ('mintab', 'cmp', 400), ('mintab', 'fmt', 60), ('mintab', 'store', 1), ('mintab', 'frombin', 100), ('mintab', 'len', 300), ('mintab', 'tables', 300), ('mintab', 'agg', 200), ('mintab', 'body', 200), ('mintab', 'parse', 400), ('static-avx2', 'gen', 250), ('static-avx2', 'cmp', 400), ('static-avx2', 'fmt', 60), ('static-avx2', 'store', 1), ('static-avx2', 'frombin', 100), ('static-avx2', 'len', 300), ('static-avx2', 'tables', 300), ('static-avx2', 'agg', 200), ('static-avx2', 'body', 200), ('static-avx2', 'parse', 400), ('static-sse41', 'gen', 250), ('static-sse41', 'cmp', 400), ('static-sse41', 'fmt', 60), ('static-sse41', 'store', 1), ('static-sse41', 'frombin', 100), ('static-sse41', 'len', 300), ('static-sse41', 'tables', 300), ('static-sse41', 'agg', 200), ('static-sse41', 'body', 200), ('static-sse41', 'parse', 400), ('static-sse2', 'gen', 250), ('static-sse2', 'cmp', 400), ('static-sse2', 'fmt', 60), ('static-sse2', 'store', 1), ('static-sse2', 'frombin', 100), ('static-sse2', 'len', 300), ('static-sse2', 'tables', 300), ('static-sse2', 'agg', 200), ('static-sse2', 'body', 200), ('static-sse2', 'parse', 400), ('hexsimd-only', 'gen', 250), ('hexsimd-only', 'cmp', 400), ('hexsimd-only', 'fmt', 60), ('hexsimd-only', 'store', 1), ('hexsimd-only', 'frombin', 100), ('hexsimd-only', 'len', 300), ('hexsimd-only', 'tables', 300), ('hexsimd-only', 'agg', 200), ('hexsimd-only', 'body', 200), ('hexsimd-only', 'parse', 400), ('unsafe', 'gen', 250), ('unsafe', 'cmp', 400), ('unsafe', 'fmt', 60), ('unsafe', 'store', 1), ('unsafe', 'frombin', 100), ('unsafe', 'len', 300), ('unsafe', 'tables', 300), ('unsafe', 'agg', 200), ('unsafe', 'body', 200), ('unsafe', 'parse', 400), ('default', 'race', 8), ('default', 'hist', 200), ('embedded', 'state', 300), ('default', 'state', 300)],
+            "thorough": [('default', 'gen', 4000), ('default', 'cmp', 8000), ('default', 'fmt', 1500), ('default', 'store', 20), ('default', 'frombin', 3000), ('default', 'len', 5000), ('default', 'tables', 20000), ('default', 'agg', 8000), ('default', 'body', 8000), ('default', 'parse', 8000), ('default', 'state', 3000), ('naive', 'gen', 4000), ('naive', 'cmp', 8000), ('naive', 'fmt', 1500), ('naive', 'store', 20), ('naive', 'frombin', 3000), ('naive', 'len', 5000), ('naive', 'tables', 20000), ('naive', 'agg', 8000), ('naive', 'body', 8000), ('naive', 'parse', 8000), ('naive', 'state', 3000), ('optdef', 'gen', 4000), ('optdef', 'cmp', 8000), ('optdef', 'fmt', 1500), ('optdef', 'store', 20), ('optdef', 'frombin', 3000), ('optdef', 'len', 5000), ('optdef', 'tables', 20000), ('optdef', 'agg', 8000), ('optdef', 'body', 8000), ('optdef', 'parse', 8000), ('optdef', 'state', 3000), ('embedded', 'gen', 4000), ('embedded', 'cmp', 8000), ('embedded', 'fmt', 1500), ('embedded', 'store', 20), ('embedded', 'frombin', 3000), ('embedded', 'len', 5000), ('embedded', 'tables', 20000), ('embedded', 'agg', 8000), ('embedded', 'body', 8000), ('embedded', 'parse', 8000), ('embedded', 'state', 3000), ('quarter', 'gen', 4000), ('quarter', 'cmp', 8000), ('quarter', 'fmt', 1500), ('quarter', 'store', 20), ('quarter', 'frombin', 3000), ('quarter', 'len', 5000), ('quarter', 'tables', 20000), ('quarter', 'agg', 8000), ('quarter', 'body', 8000), ('quarter', 'parse', 8000), ('quarter', 'state', 3000), ('mintab', 'gen', 4000), ('mintab', 'cmp', 8000), ('mintab', 'fmt', 1500), ('mintab', 'store', 20), ('mintab', 'frombin', 3000), ('mintab', 'len', 5000), ('mintab', 'tables', 20000), ('mintab', 'agg', 8000), ('mintab', 'body', 8000), ('mintab', 'parse', 8000), ('mintab', 'state', 3000), ('static-avx2', 'gen', 4000), ('static-avx2', 'cmp', 8000), ('static-avx2', 'fmt', 1500), ('static-avx2', 'store', 20), ('static-avx2', 'frombin', 3000), ('static-avx2', 'len', 5000), ('static-avx2', 'tables', 20000), ('static-avx2', 'agg', 8000), ('static-avx2', 'body', 8000), ('static-avx2', 'parse', 8000), ('static-avx2', 'state', 3000), ('static-sse41', 'gen', 4000), ('static-sse41', 'cmp', 8000), ('static-sse41', 'fmt', 1500), ('static-sse41', 'store', 20), ('static-sse41', 'frombin', 3000), ('static-sse41', 'len', 5000), ('static-sse41', 'tables', 20000), ('static-sse41', 'agg', 8000), ('static-sse41', 'body', 8000), ('static-sse41', 'parse', 8000), ('static-sse41', 'state', 3000), ('static-sse2', 'gen', 4000), ('static-sse2', 'cmp', 8000), ('static-sse2', 'fmt', 1500), ('static-sse2', 'store', 20), ('static-sse2', 'frombin', 3000), ('static-sse2', 'len', 5000), ('static-sse2', 'tables', 20000), ('static-sse2', 'agg', 8000), ('static-sse2', 'body', 8000), ('static-sse2', 'parse', 8000), ('static-sse2', 'state', 3000), ('hexsimd-only', 'gen', 4000), ('hexsimd-only', 'cmp', 8000), ('hexsimd-only', 'fmt', 1500), ('hexsimd-only', 'store', 20), ('hexsimd-only', 'frombin', 3000), ('hexsimd-only', 'len', 5000), ('hexsimd-only', 'tables', 20000), ('hexsimd-only', 'agg', 8000), ('hexsimd-only', 'body', 8000), ('hexsimd-only', 'parse', 8000), ('hexsimd-only', 'state', 3000), ('unsafe', 'gen', 4000), ('unsafe', 'cmp', 8000), ('unsafe', 'fmt', 1500), ('unsafe', 'store', 20), ('unsafe', 'frombin', 3000), ('unsafe', 'len', 5000), ('unsafe', 'tables', 20000), ('unsafe', 'agg', 8000), ('unsafe', 'body', 8000), ('unsafe', 'parse', 8000), ('unsafe', 'state', 3000), ('default', 'race', 200), ('default', 'bodyrows', 2), ('static-sse2', 'bodyrows', 4), ('static-sse41', 'bodyrows', 4)],
+        },
+        "rule": "the same seeded corpus (gen, cmp, fmt, store, frombin, len) runs in every buildable configuration "
+                "of DESIGN §5.1; each transcript is compared with the model run under the configuration the probe "
+                "reports, and the transcripts are diffed against each other; `agg` and `body` call every compiled "
+                "back end directly through the hooks; `tables` sweeps the compiled Pearson tables exhaustively; "
+                "`race` = fresh processes in which 16 threads make the first dispatched calls simultaneously",
+        "trusted_extra": ["bv_decide axioms in the word-level kernel lemmas (Lemmas/DistKernels.lean, "
+                          "Lemmas/AggKernels.lean)",
+                          "OnceLock::get_or_init and is_x86_feature_detected! by contract; the race stream is "
+                          "supporting evidence only"],
+        "assumptions": ["`unstable` / `simd-portable` need a nightly toolchain and are outside the stable matrix; "
+                        "arm / wasm back ends cannot be built or run here"],
+    },
 }
